@@ -10,6 +10,10 @@ def handle (args : List String) : Option String :=
   | "serve" :: rest => do
     let o ← handleServe rest
     pure s!"{encWritten o.written} {encStop o.result}"
+  | "servep" :: rest => do
+    let o ← handleServeP rest
+    let dl := if o.delivered.isEmpty then "-" else ",".intercalate (o.delivered.map XmppModel.Xml.hexF)
+    pure s!"{encWritten o.out.written} {encStop o.out.result} {dl}"
   | "elem" :: mode :: ns :: lb :: jm :: toks :: [prog] => do
     let ns ← decNs ns
     let lb ← XmppModel.Xml.unhexF (if lb == "-" then "" else lb)
